@@ -9,8 +9,28 @@ CONSTANTS BigSizes,  \* sizes n of the large field in the oversize table
           What       \* subset of {"pdus", "big", "strict"}
 
 Maxes == {1018, 16378}
-StrictCases == {[max |-> m, strict |-> s, plen |-> m + d] : m \in Maxes, s \in BOOLEAN, d \in {-1, 0, 1, 2, 1018}}
-StrictPdu(plen) == [k |-> "pdata", pdvs |-> <<[id |-> 1, cmd |-> FALSE, last |-> TRUE, data |-> Rep(plen - 6, 0)]>>]
+(* strict-mode table: EVERY PDU kind whose PDU-length field can exceed the maximum   *)
+(* (A-ASSOCIATE-RQ/AC, P-DATA-TF, unknown types; RJ / release / abort have the fixed *)
+(* length 4), with the length field at max-1, max, max+1, max+2 and well above       *)
+StrictKinds == {"pdata", "rq", "ac", "unknown"}
+StrictCases == {[kind |-> kd, max |-> m, strict |-> s, plen |-> m + d] :
+                  kd \in StrictKinds, m \in Maxes, s \in BOOLEAN, d \in {-1, 0, 1, 2, 1018}}
+(* a PDU of the given kind whose PDU-length field is exactly plen: association PDUs  *)
+(* are filled with presentation contexts (18 / 13 bytes each) and one unknown user   *)
+(* sub-item for the remainder; fixed part 68 + application context item 5 + user     *)
+(* information header 4 + sub-item header 4 = 81                                     *)
+PadAssoc(kind, plen) ==
+  LET per == IF kind = "rq" THEN 18 ELSE 13
+      k == (plen - 81) \div per
+      r == plen - 81 - per * k
+  IN [k |-> kind, pv |-> 1, called |-> <<65>>, calling |-> <<66>>, app |-> <<49>>,
+      pcs |-> [i \in 1..k |-> IF kind = "rq" THEN [id |-> 2 * ((i - 1) % 128) + 1, abs |-> <<49>>, ts |-> <<<<50>>>>]
+                                             ELSE [id |-> 2 * ((i - 1) % 128) + 1, reason |-> i % 5, ts |-> <<50>>]],
+      uv |-> <<[t |-> "unk", type |-> 153, data |-> Rep(r, 7)]>>]
+StrictPdu(kind, plen) ==
+  CASE kind = "pdata" -> [k |-> "pdata", pdvs |-> <<[id |-> 1, cmd |-> FALSE, last |-> TRUE, data |-> Rep(plen - 6, 0)]>>]
+    [] kind \in {"rq", "ac"} -> PadAssoc(kind, plen)
+    [] kind = "unknown" -> [k |-> "unknown", type |-> 200, data |-> Rep(plen, 3)]
 
 Tagged(w, S) == IF w \in What THEN {[w |-> w, v |-> x] : x \in S} ELSE {}
 GInit == p \in Tagged("pdus", Instances)
@@ -30,8 +50,10 @@ Emit ==
          PrintT(<<"CASE", ToJson([big |-> TRUE, shape |-> c.shape, n |-> c.n,
                                   writable |-> Writable(BigPdu(c.shape, c.n))])>>)
     [] p.w = "strict" ->
-         LET b == PduBytes(StrictPdu(c.plen)) IN
-         PrintT(<<"CASE", ToJson([strictcase |-> TRUE, max |-> c.max, strict |-> c.strict, plen |-> c.plen,
+         LET sp == StrictPdu(c.kind, c.plen)
+             b == PduBytes(sp) IN
+         PrintT(<<"CASE", ToJson([strictcase |-> TRUE, kind |-> c.kind, max |-> c.max, strict |-> c.strict, plen |-> c.plen,
+                                  pdu |-> sp, lenok |-> (Len(b) = c.plen + 6),
                                   exp |-> [full  |-> ReadPduN(b, Len(b), c.max, c.strict).k,
                                            hdr   |-> ReadPduN(b, 6, c.max, c.strict).k,
                                            short |-> ReadPduN(b, Len(b) - 1, c.max, c.strict).k]])>>)
